@@ -119,6 +119,7 @@ pub fn drive(name: &str, out: &str, args: &[String]) {
         "ledger" => ledger_driver(out, seed, arg(args, 1, 50), arg(args, 2, 100)),
         "risk" => risk_driver(out, seed, arg(args, 1, 100)),
         "liq" => liq_driver(out, seed, arg(args, 1, 100)),
+        "admin" => admin_driver(out, seed, arg(args, 1, 100)),
         _ => {
             eprintln!("unknown driver {}", name);
             std::process::exit(2);
@@ -690,5 +691,158 @@ fn liq_driver(out: &str, seed: u64, n: u64) {
         }
     }
     eprintln!("liq driver: {} scenarios, {} liquidations ok, {} bankruptcies ok, {} banks killed, {} events", n, nliq, nbk, nkill, r.events);
+    r.finish();
+}
+
+// ------------------------------------------------------------------------------------------------
+// admin driver: delegated-admin instructions with arbitrary arguments, frozen banks, fee collection
+// with doctored buckets, emissions life cycle, forced deleverage with a daily limit
+// ------------------------------------------------------------------------------------------------
+fn admin_driver(out: &str, seed: u64, n: u64) {
+    let mut rng = StdRng::seed_from_u64(seed);
+    let mut r = Recorder::new(&format!("{}/admin.trace", out), load_setup("auth"));
+    let words: Vec<u64> = vec![0, 1, 2, 3, 1 << 2, 1 << 3, 1 << 4, 1 << 5, 1 << 6, 8 | 2, 16 | 1, u64::MAX, 1 << 63, 0xff];
+    for k in 0..n {
+        r.begin(&[]);
+        match k % 4 {
+            0 => {
+                // ---- emissions on B2 (none set up yet) and B1 (set up in the seed script)
+                if rng.gen_bool(0.5) {
+                    r.act(json!({"op":"configure_bank","bank":"B2","cfg":{"freeze": rng.gen_bool(0.5), "permissionless_bad_debt": rng.gen_bool(0.5)}}));
+                }
+                let f = *pick(&mut rng, &[0u64, 1, 2, 3, 4, 8, 11]);
+                r.act(json!({"op":"fund","user":"emisadmin","mint":"M3","amount":"0"}));
+                r.act(json!({"op":"setup_emissions","bank":"B2","mint":"ME","flags":f,"rate": rng.gen_range(0..5_000_000u64),"total": rng.gen_range(0..2_000_000_000u64)}));
+                for _ in 0..rng.gen_range(1..5) {
+                    let w = if rng.gen_bool(0.3) { rng.gen::<u64>() } else { *pick(&mut rng, &words) };
+                    let b = *pick(&mut rng, &["B1", "B2"]);
+                    let mut a = json!({"op":"update_emissions","bank":b,"mint":"ME"});
+                    if rng.gen_bool(0.8) {
+                        a["flags"] = json!(w.to_string());
+                    }
+                    if rng.gen_bool(0.5) {
+                        a["rate"] = json!(rng.gen_range(0..10_000_000u64));
+                    }
+                    if rng.gen_bool(0.4) {
+                        a["additional"] = json!(rng.gen_range(0..1_000_000_000u64));
+                    }
+                    if rng.gen_bool(0.15) {
+                        a["signer"] = json!(*pick(&mut rng, &["admin", "U1", "stranger"]));
+                    }
+                    r.act(a);
+                }
+                // user activity under emissions
+                r.act(json!({"op":"update_emis_dest","acct":"A1","dst":"U7"}));
+                for _ in 0..rng.gen_range(2..8) {
+                    let c = rng.gen_range(0..8);
+                    let a = match c {
+                        0 => json!({"op":"tick","dt": *pick(&mut rng, &[1i64, 3600, 86400, 31_536_000])}),
+                        1 => json!({"op":"deposit","acct":"A1","bank":*pick(&mut rng, &["B1","B2"]),"amount": rng.gen_range(1..2_000_000_000u64)}),
+                        2 => json!({"op":"settle_emissions","acct":*pick(&mut rng, &["A1","A2"]),"bank":*pick(&mut rng, &["B1","B2"])}),
+                        3 => json!({"op":"withdraw_emissions","acct":"A1","bank":*pick(&mut rng, &["B1","B2"])}),
+                        4 => json!({"op":"withdraw_emissions_perm","acct":"A1","bank":*pick(&mut rng, &["B1","B2"])}),
+                        5 => json!({"op":"withdraw_emissions","acct":"A1","bank":"B1","signer":"stranger"}),
+                        6 => json!({"op":"withdraw_emissions_perm","acct":"A1","bank":"B1","dst":"stranger.ME"}),
+                        _ => json!({"op":"withdraw","acct":"A1","bank":"B1","amount": rng.gen_range(1..1_000_000u64)}),
+                    };
+                    if a["op"] == "withdraw_emissions_perm" && a.get("dst").is_some() {
+                        r.ex.user_tok("stranger", "ME");
+                    }
+                    r.act(a);
+                }
+            }
+            1 => {
+                // ---- frozen settings
+                let b = *pick(&mut rng, &["B1", "B2", "B3"]);
+                r.act(json!({"op":"configure_bank","bank":b,"cfg":{"freeze":true}}));
+                for _ in 0..6 {
+                    let c = rng.gen_range(0..9);
+                    let a = match c {
+                        0 => json!({"op":"configure_bank","bank":b,"cfg":{"aw_init":"0.1","aw_maint":"0.2","lw_init":"3","lw_maint":"2","op_state":2,"risk_tier":0,"init_limit":77,"oracle_max_age":33,"deposit_limit":"12345","borrow_limit":"54321"}}),
+                        1 => json!({"op":"configure_bank","bank":b,"cfg":{"freeze":false}}),
+                        2 => json!({"op":"configure_interest","bank":b,"ir":{"ins_ir":"0.2","zero":1000,"hundred":4000000000u64}}),
+                        3 => json!({"op":"configure_limits","bank":b,"deposit_limit":"999","borrow_limit":"888","init_limit":"777"}),
+                        4 => json!({"op":"configure_oracle","bank":b,"oracle":"O1","setup":3}),
+                        5 => json!({"op":"set_fixed_price","bank":b,"price":5}),
+                        6 => json!({"op":"configure_emode","bank":b,"tag":9,"entries":[{"tag":5,"init":"0.5","maint":"0.6"}]}),
+                        7 => json!({"op":"update_emissions","bank":"B1","mint":"ME","flags":"0"}),
+                        _ => json!({"op":"clone_emode","from":"B1","to":b}),
+                    };
+                    r.act(a);
+                }
+            }
+            2 => {
+                // ---- fee buckets and their destinations
+                let b = *pick(&mut rng, &["B1", "B2"]);
+                let mk = |rng: &mut StdRng| -> String {
+                    match rng.gen_range(0..6) {
+                        0 => "0".into(),
+                        1 => "1/2".into(),
+                        2 => "3/2".into(),
+                        3 => format!("{}/7", rng.gen_range(1..1_000_000_000u64)),
+                        4 => "99999999999999".into(),
+                        _ => format!("{}", rng.gen_range(1..100_000u64)),
+                    }
+                };
+                r.act(json!({"op":"inject_bank","bank":b,"fee_ins":mk(&mut rng),"fee_grp":mk(&mut rng),"fee_prog":mk(&mut rng)}));
+                r.act(json!({"op":"collect_fees","bank":b}));
+                r.act(json!({"op":"collect_fees","bank":b,"fee_ata":"U1.M1"}));
+                for _ in 0..4 {
+                    let who = *pick(&mut rng, &["admin", "admin", "riskadmin", "stranger", "admin2"]);
+                    let amt = rng.gen_range(0..2000u64);
+                    let op = *pick(&mut rng, &["withdraw_fees", "withdraw_insurance", "withdraw_fees_perm", "update_fees_dest"]);
+                    let mut a = json!({"op":op,"bank":b,"amount":amt});
+                    if op == "update_fees_dest" {
+                        let m = if b == "B1" { "M1" } else { "M2" };
+                        a["dst"] = json!(format!("{}.{}", *pick(&mut rng, &["U1", "U2"]), m));
+                    }
+                    if op == "withdraw_fees_perm" && rng.gen_bool(0.4) {
+                        a["dst"] = json!(if b == "B1" { "stranger.M1" } else { "stranger.M2" });
+                    }
+                    if op != "withdraw_fees_perm" && who != "admin" {
+                        a["signer"] = json!(who);
+                    }
+                    r.act(a);
+                }
+            }
+            _ => {
+                // ---- forced deleverage by the risk admin with a daily limit
+                let limit = *pick(&mut rng, &[0u64, 1, 5, 50]);
+                r.act(json!({"op":"delev_limit","group":"G1","limit":limit}));
+                for _ in 0..rng.gen_range(1..5) {
+                    let acct = *pick(&mut rng, &["A2", "A3"]);
+                    let wamt = *pick(&mut rng, &[1u64, 100_000, 499_999, 1_000_000, 4_000_000]); // B2 units ($7 per 1e6)
+                    let ramt = (wamt as u128 * 8) as u64; // B1 units ($1 per 1e6): repay more value than seized
+                    let ra = *pick(&mut rng, &["riskadmin", "riskadmin", "riskadmin", "admin", "stranger"]);
+                    let mut ixs = vec![
+                        json!({"op":"start_delev","acct":acct,"signer":ra}),
+                        json!({"op":"withdraw","acct":acct,"bank":"B2","amount":wamt,"signer":ra}),
+                        json!({"op":"repay","acct":acct,"bank":"B1","amount":ramt,"signer":ra}),
+                        json!({"op":"end_delev","acct":acct,"signer":ra}),
+                    ];
+                    match rng.gen_range(0..8) {
+                        0 => {
+                            ixs.remove(2); // no repay: health would worsen
+                        }
+                        1 => {
+                            ixs.pop(); // missing end
+                        }
+                        2 => {
+                            ixs.insert(2, json!({"op":"withdraw","acct":acct,"bank":"B2","amount":wamt,"signer":ra}));
+                        }
+                        3 => {
+                            ixs.insert(1, json!({"op":"borrow","acct":acct,"bank":"B1","amount":5,"signer":ra}));
+                        }
+                        _ => {}
+                    }
+                    r.act(json!({"op":"tx","ixs":ixs}));
+                    if rng.gen_bool(0.3) {
+                        r.act(json!({"op":"tick","dt": *pick(&mut rng, &[3600i64, 86399, 86400, 90000])}));
+                    }
+                }
+            }
+        }
+    }
+    eprintln!("admin driver: {} scenarios, {} events", n, r.events);
     r.finish();
 }
